@@ -24,7 +24,8 @@ Refusing a pair the docs call coercible is NOT a violation of C14 (soundness is 
 
 Type spec grammar (JSON)::
 
-    ["sc", name]                          atom: int bool str float bytes None Any object IE E datetime date PA PB IntList
+    ["sc", name]                          atom: int bool str float bytes None Any object IE E datetime date PA PB
+                                          IntList
     ["nt", name, base]                    NewType(name, base)
     ["ann", inner, meta]                  Annotated[inner, meta]
     ["lit", [v, ...]]                     Literal; v = int | str | bool | ["e", "IE", member]
@@ -885,7 +886,8 @@ class Builder:
                 sub = {n: _subst(a, tv) for n, a in sub.items()}
             cols = [(f[0], self.values(f[1], sub if tparams else tv)) for f in spec[3]]
             # instance i takes the i-th canonical value of every field, so each field value is used at least once
-            return [cls(**{n: vs[i % len(vs)] for n, vs in cols}) for i in range(min(5, max(len(vs) for _, vs in cols)))]
+            count = min(5, max(len(vs) for _, vs in cols))
+            return [cls(**{n: vs[i % len(vs)] for n, vs in cols}) for i in range(count)]
         raise env.HarnessError(f"unknown spec {spec!r}")
 
     # ---- structural conformance of a runtime value to a type
@@ -1337,7 +1339,7 @@ POLICIES_FOR_UNLINKED = [
 ]
 
 
-POLICIES_FOR_UNLINKED_QUICK = [POLICIES_FOR_UNLINKED[i] for i in (0, 1, 2, 4, 6)]
+POLICIES_FOR_UNLINKED_QUICK = [POLICIES_FOR_UNLINKED[i] for i in (0, 1, 2, 4)]
 
 
 def unlinked_cases(policies):
@@ -1755,7 +1757,7 @@ def explore(ctx: runner.Ctx):
         + f"; unlinked destination field: {len(POOL)} types x required/optional x {npol} policy "
         "shapes x (top level, nested, nested with a same-named parameter)")
     # 3. nested combinations: source type and a destination derived by local rewrites
-    budget = ctx.budget(5000, 240000)
+    budget = ctx.budget(4000, 240000)
     ctx.given(st_case(), lambda case: sampled(ctx, case), budget)
     # a soundness oracle is vacuous when nothing is accepted (or nothing refused): that is a broken generator or
     # environment, not a verdict about the property
